@@ -16,7 +16,7 @@ Theorem C02_tree_roundtrip : forall F lvalidate lto_python lto_basic ldefault lc
      exists b b', lto_basic f x = Ok b /\ lto_python f b = Ok b' /\ lvalidate f b' = Ok x) ->
   (forall n l1 l2, (forall k, vlookup k l1 = vlookup k l2) -> vrun n l1 = vrun n l2) ->
   forall dyn vs fs c, deep_valid F lvalidate lflag vrun dyn vs fs c ->
-  forall w w0 fresh, build_cfg F ldefault lcallable w fs = (w0, fresh) ->
+  forall w w0 fresh, build_cfg F lvalidate lto_python ldefault lcallable lflag vrun w fs = (w0, fresh) ->
   exists t w' c', to_tree F lto_basic lsensitive py_strlen None fs c = Ok t /\
     load_tree F lvalidate lto_python ldefault lcallable lflag vrun t true w0 [] fresh dyn vs fs = (w', c', OOk) /\
     same_values F fs c' c /\ deep_valid F lvalidate lflag vrun dyn vs fs c'.
@@ -39,7 +39,7 @@ Theorem C02_codec_roundtrip : forall F lvalidate lto_python lto_basic ldefault l
   (forall t, dom t -> dec (enc t) = Ok t) ->
   forall dyn vs fs c, deep_valid F lvalidate lflag vrun dyn vs fs c ->
   (forall t, to_tree F lto_basic lsensitive py_strlen None fs c = Ok t -> dom t) ->
-  forall w w0 fresh, build_cfg F ldefault lcallable w fs = (w0, fresh) ->
+  forall w w0 fresh, build_cfg F lvalidate lto_python ldefault lcallable lflag vrun w fs = (w0, fresh) ->
   exists doc w' c',
     dumps F lto_basic lsensitive py_strlen B enc fs c = Ok doc /\
     loads F lvalidate lto_python ldefault lcallable lflag vrun B dec doc w0 fresh dyn vs fs = (w', c', OOk) /\
@@ -57,7 +57,7 @@ Theorem C02_roundtrip_partial : forall F lvalidate lto_python lto_basic ldefault
   Normal F lvalidate dyn fs c ->
   validate_errs F lvalidate lflag vrun (NSub dyn vs fs) [] (VCfg c) = [] ->
   known_F36 F lflag fs c = false ->
-  forall w w0 fresh, build_cfg F ldefault lcallable w fs = (w0, fresh) ->
+  forall w w0 fresh, build_cfg F lvalidate lto_python ldefault lcallable lflag vrun w fs = (w0, fresh) ->
   exists t w' c', to_tree F lto_basic lsensitive py_strlen None fs c = Ok t /\
     load_tree F lvalidate lto_python ldefault lcallable lflag vrun t true w0 [] fresh dyn vs fs = (w', c', OOk) /\
     same_values F fs c' c /\ deep_valid F lvalidate lflag vrun dyn vs fs c'.
@@ -66,7 +66,7 @@ Print Assumptions C02_roundtrip_partial.
 
 (* no hypothesis left for the concrete IntField / StringField / BoolField / FeatureFlagField / AnyField model *)
 Theorem C02_inst_tree_roundtrip : forall vt dyn vs fs c, deep_valid leaf lvalidate lflag (vrun vt) dyn vs fs c ->
-  forall w w0 fresh, build_cfg leaf ldefault l_callable w fs = (w0, fresh) ->
+  forall w w0 fresh, build_cfg leaf lvalidate lto_python ldefault l_callable lflag (vrun vt) w fs = (w0, fresh) ->
   exists t w' c', to_tree leaf lto_basic l_sensitive py_strlen None fs c = Ok t /\
     load_tree leaf lvalidate lto_python ldefault l_callable lflag (vrun vt) t true w0 [] fresh dyn vs fs = (w', c', OOk) /\
     same_values leaf fs c' c /\ deep_valid leaf lvalidate lflag (vrun vt) dyn vs fs c'.
@@ -76,12 +76,7 @@ Print Assumptions C02_inst_tree_roundtrip.
 (* open finding F36: a valid configuration (required field unset inside a disabled feature) renders "need": null and
    the rendered tree is rejected by load_tree *)
 Theorem C02_roundtrip_refuted_F36 :
-  validate_errs leaf lvalidate lflag (vrun []) (NSub false [] f36_fs) [] (VCfg f36_c) = []
-  /\ Normal leaf lvalidate false f36_fs f36_c
-  /\ known_F36 leaf lflag f36_fs f36_c = true
-  /\ to_tree leaf lto_basic l_sensitive py_strlen None f36_fs f36_c = Ok f36_tree
-  /\ snd (load_tree leaf lvalidate lto_python ldefault l_callable lflag (vrun []) f36_tree true f36_w []
-            (snd (build_cfg leaf ldefault l_callable f36_w f36_fs)) false [] f36_fs) = OErr (EValidation (sa "sub.need")).
+  validate_errs leaf lvalidate lflag (vrun []) (NSub false [] f36_fs) [] (VCfg f36_c) = [] /\ Normal leaf lvalidate false f36_fs f36_c /\ known_F36 leaf lflag f36_fs f36_c = true /\ to_tree leaf lto_basic l_sensitive py_strlen None f36_fs f36_c = Ok f36_tree /\ snd (load_tree leaf lvalidate lto_python ldefault l_callable lflag (vrun []) f36_tree true f36_w [] (snd (build_cfg leaf lvalidate lto_python ldefault l_callable lflag (vrun []) f36_w f36_fs)) false [] f36_fs) = OErr (EValidation (sa "sub.need")).
 Proof. exact roundtrip_refuted_F36. Qed.
 Print Assumptions C02_roundtrip_refuted_F36.
 
@@ -114,7 +109,7 @@ Print Assumptions C02_fields_leaf_roundtrip.
 
 Theorem C02_fields_tree_roundtrip : forall orc vt dyn vs fs c,
   deep_valid fleaf (cfr_validate orc) fl_flag (vrun vt) dyn vs fs c ->
-  forall w w0 fresh, build_cfg fleaf (cf_default orc) fl_callable w fs = (w0, fresh) ->
+  forall w w0 fresh, build_cfg fleaf (cfr_validate orc) (cf_to_python orc) (cf_default orc) fl_callable fl_flag (vrun vt) w fs = (w0, fresh) ->
   exists t w' c', to_tree fleaf cf_to_basic fl_sensitive py_strlen None fs c = Ok t /\
     load_tree fleaf (cfr_validate orc) (cf_to_python orc) (cf_default orc) fl_callable fl_flag (vrun vt) t true w0 [] fresh dyn vs fs
       = (w', c', OOk) /\
@@ -151,7 +146,7 @@ Theorem C02_xml_save_load : forall F lvalidate lto_python lto_basic ldefault lca
   forall (B : Type) (L : lib B), lib_laws L ->
   forall dyn vs fs c, deep_valid F lvalidate lflag vrun dyn vs fs c ->
   forall rt, (forall t, to_tree F lto_basic lsensitive py_strlen None fs c = Ok t -> xml_tree_ok (l_name_ok L) rt t = true) ->
-  forall w w0 fresh, build_cfg F ldefault lcallable w fs = (w0, fresh) ->
+  forall w w0 fresh, build_cfg F lvalidate lto_python ldefault lcallable lflag vrun w fs = (w0, fresh) ->
   exists doc w' c',
     xml_config_dumps F lto_basic lsensitive py_strlen B L rt fs c = Ok doc /\
     xml_config_loads F lvalidate lto_python ldefault lcallable lflag vrun B L rt doc w0 fresh dyn vs fs = (w', c', OOk) /\
@@ -180,7 +175,7 @@ Theorem C04_C02_formats_agree_on_configs : forall F lvalidate lto_python lto_bas
   forall f g, exact_format f = true -> exact_format g = true ->
   forall dyn vs fs c, deep_valid F lvalidate lflag vrun dyn vs fs c ->
   (forall t, to_tree F lto_basic lsensitive py_strlen None fs c = Ok t -> tree_in_domain L f t /\ tree_in_domain L g t) ->
-  forall w w0 fresh, build_cfg F ldefault lcallable w fs = (w0, fresh) ->
+  forall w w0 fresh, build_cfg F lvalidate lto_python ldefault lcallable lflag vrun w fs = (w0, fresh) ->
   exists docf docg w' c',
     fmt_config_dumps F lto_basic lsensitive py_strlen B L f fs c = Ok docf /\
     fmt_config_dumps F lto_basic lsensitive py_strlen B L g fs c = Ok docg /\
